@@ -10,7 +10,7 @@ shutil.copy('%s/demo%s.diff'%(src,k),dst+'/demo.diff')
 notes=open('%s/notes%s.md'%(src,k)).read()
 open(dst+'/notes.md','w').write(notes)
 ver=''
-for f in ['/tmp/seedout/verify_batch1.txt','/tmp/seedout/verify_batch2.txt','/tmp/seedout/verify_batch3.txt','/tmp/seedout/verify_batch4.txt','/tmp/seedout/verify_batch5.txt','/tmp/seedout/verify_batch6.txt','/tmp/seedout/verify_batch7.txt','/tmp/seedout/verify_batch8.txt','/tmp/seedout/verify_batch9.txt','/tmp/seedout/verify_batch10.txt','/tmp/seedout/verify_batch11.txt']:
+for f in ['/tmp/seedout/verify_batch1.txt','/tmp/seedout/verify_batch2.txt','/tmp/seedout/verify_batch3.txt','/tmp/seedout/verify_batch4.txt','/tmp/seedout/verify_batch5.txt','/tmp/seedout/verify_batch6.txt','/tmp/seedout/verify_batch7.txt','/tmp/seedout/verify_batch8.txt','/tmp/seedout/verify_batch9.txt','/tmp/seedout/verify_batch10.txt','/tmp/seedout/verify_batch11.txt','/tmp/seedout/verify_batch12.txt']:
     if os.path.exists(f):
         for l in open(f):
             if l.startswith('%s/%s '%(i,k)): ver=l.strip()
